@@ -27,12 +27,16 @@ package main
 import (
 	"bufio"
 	"bytes"
+	"context"
 	"errors"
 	"fmt"
 	"io"
 	"net/http"
+	goruntime "runtime"
 	"strconv"
 	"strings"
+	"sync/atomic"
+	"time"
 
 	"github.com/go-openapi/runtime"
 
@@ -75,9 +79,46 @@ type stream struct {
 	termDelivered  bool
 	closeErrs      int
 	maxReadRequest int
+
+	// "nothing is read from the underlying stream except through the request body": the harness raises inCall
+	// around each of its own calls; a Read that is entered or completes while it is down is counted
+	inCall  atomic.Bool
+	outside atomic.Int32
+	block   *blocker // non-nil: the first Read received while armed parks until the harness releases it
+}
+
+// blocker makes one Read of the stream block, with the hand-shake done by channels: the stream signals
+// "Read entered" and waits for "release"; "firstDone" is closed when that Read has delivered.
+type blocker struct {
+	armed     atomic.Bool
+	taken     atomic.Bool
+	entered   chan struct{}
+	release   chan struct{}
+	firstDone chan struct{}
+}
+
+func newBlocker() *blocker {
+	return &blocker{entered: make(chan struct{}), release: make(chan struct{}), firstDone: make(chan struct{})}
 }
 
 func (s *stream) Read(p []byte) (int, error) {
+	if !s.inCall.Load() {
+		s.outside.Add(1)
+	}
+	if b := s.block; b != nil && b.armed.Load() && b.taken.CompareAndSwap(false, true) {
+		close(b.entered)
+		<-b.release
+		n, err := s.read(p)
+		if !s.inCall.Load() {
+			s.outside.Add(1)
+		}
+		close(b.firstDone)
+		return n, err
+	}
+	return s.read(p)
+}
+
+func (s *stream) read(p []byte) (int, error) {
 	s.reads++
 	if s.closes > 0 {
 		s.readsAfterCl++
@@ -247,7 +288,10 @@ type Case struct {
 	BodyLen    int       `json:"body_len"` // -1: the request has no body object at all (nil)
 	Term       string    `json:"term"`     // "EOF" or "ERR" (sticky injected error after the last byte)
 	Mode       string    `json:"mode"`
-	FirstByte  *int      `json:"first_byte,omitempty"` // request A: value of body byte 0 when it is not the pattern's (content axis)
+	FirstByte  *int      `json:"first_byte,omitempty"`          // request A: value of body byte 0 when it is not the pattern's (content axis)
+	Ctx        string    `json:"ctx,omitempty"`                 // request A: "" background context | cancellable | cancel-before | deadline-expired | cancel-while-blocked | cancel-after-probe
+	Blocking   bool      `json:"blocking_first_read,omitempty"` // the first underlying Read issued by the first probe parks until the harness releases it
+	WaitMs     int       `json:"wait_ms,omitempty"`             // how long the harness waits for an early return of that probe before releasing the Read (stimulus only)
 	More       []ReqSpec `json:"more,omitempty"`
 	Ops        []string  `json:"ops"`
 	ZeroBudget int       `json:"zero_budget"`
@@ -275,6 +319,9 @@ type config struct {
 	mode    string
 	data    []byte
 	first   int    // -1: body byte 0 is the pattern's; otherwise its value
+	ctx     string // context of the request and the cancellation event (see Case.Ctx)
+	block   bool   // blocking first read during the first probe
+	waitMs  int
 	wire    []byte // wire modes: the raw request text
 }
 
@@ -318,7 +365,20 @@ func makeBody(n, which int) []byte {
 	return b
 }
 
+const (
+	ctxCancellable   = "cancellable"          // cancellable context, never cancelled while the history runs
+	ctxCancelBefore  = "cancel-before"        // cancelled before the first operation
+	ctxExpired       = "deadline-expired"     // deadline in the past
+	ctxCancelBlocked = "cancel-while-blocked" // cancelled while the first probe's underlying Read is parked (needs blocking_first_read)
+	ctxCancelAfter   = "cancel-after-probe"   // cancelled right after the first probe returned
+)
+
 func (cfg *config) String() string {
+	if cfg.ctx != "" {
+		c2 := *cfg
+		c2.ctx = ""
+		return fmt.Sprintf("%s; context %s, first read blocks=%v (wait %d ms)", c2.String(), cfg.ctx, cfg.block, cfg.waitMs)
+	}
 	if cfg.bodyLen < 0 {
 		return "nil body, " + cfg.mode
 	}
@@ -340,6 +400,7 @@ func mkCase(cfgs []*config, ops []uint8, zb int, choices []int) Case {
 	if f := cfgs[0].first; f >= 0 {
 		c.FirstByte = &f
 	}
+	c.Ctx, c.Blocking, c.WaitMs = cfgs[0].ctx, cfgs[0].block, cfgs[0].waitMs
 	for _, g := range cfgs[1:] {
 		c.More = append(c.More, ReqSpec{g.bodyLen, termName(g.term), g.mode})
 	}
@@ -390,6 +451,15 @@ func parseCase(c Case) ([]*config, []uint8, error) {
 	if err != nil {
 		return nil, nil, err
 	}
+	switch c.Ctx {
+	case "", ctxCancellable, ctxCancelBefore, ctxExpired, ctxCancelBlocked, ctxCancelAfter:
+	default:
+		return nil, nil, fmt.Errorf("unknown ctx %q", c.Ctx)
+	}
+	if c.WaitMs < 0 || c.WaitMs > 5000 {
+		return nil, nil, fmt.Errorf("wait_ms out of range")
+	}
+	cfg.ctx, cfg.block, cfg.waitMs = c.Ctx, c.Blocking, c.WaitMs
 	cfgs := []*config{cfg}
 	for i, m := range c.More {
 		g, err := parseReq(m.BodyLen, m.Term, m.Mode, i+1, -1)
@@ -615,6 +685,9 @@ type sess struct {
 	probedUndeclared bool
 	wrapped          bool // a probe replaced the (non-nil) body by a wrapper
 	served           bool // ... and a later operation went through it
+
+	cancel func() // cancellable contexts
+	probes int    // HasBody calls made so far
 }
 
 func newSess(x *xctx, idx int, cfg *config) *sess {
@@ -623,7 +696,9 @@ func newSess(x *xctx, idx int, cfg *config) *sess {
 	site := q.name + ".stream"
 	if isWire(cfg.mode) {
 		q.env = &stream{site: site, data: cfg.wire, term: io.EOF, c: x.ch, zeroBudget: x.zb}
+		q.env.inCall.Store(true)
 		rq, err := http.ReadRequest(bufio.NewReader(q.env))
+		q.env.inCall.Store(false)
 		if err != nil {
 			x.st.outcomes[oWireUnreadable]++
 			return nil
@@ -660,7 +735,157 @@ func newSess(x *xctx, idx int, cfg *config) *sess {
 		}
 		q.declared = 1
 	}
+	if cfg.ctx != "" {
+		var ctx context.Context
+		if cfg.ctx == ctxExpired {
+			ctx, q.cancel = context.WithDeadline(context.Background(), time.Unix(1, 0))
+		} else {
+			ctx, q.cancel = context.WithCancel(context.Background())
+		}
+		if cfg.ctx == ctxCancelBefore {
+			q.cancel()
+		}
+		q.req = q.req.WithContext(ctx)
+		if cfg.block && q.s != nil {
+			q.s.block = newBlocker()
+		}
+	}
 	return q
+}
+
+// one execution runs at a time per process (see explore.go), so one buffer does
+var stackBuf = make([]byte, 128<<10)
+
+// requestGoGoroutines counts the goroutines other than the caller that are executing code of request.go.
+func requestGoGoroutines() int {
+	buf := stackBuf[:goruntime.Stack(stackBuf, true)]
+	n := 0
+	for i, g := range strings.Split(string(buf), "\n\n") {
+		if i == 0 {
+			continue // the calling goroutine
+		}
+		if strings.Contains(g, "go-openapi/runtime.HasBody") || strings.Contains(g, "go-openapi/runtime.(*peekingReader)") || strings.Contains(g, "runtime/request.go:") {
+			n++
+		}
+	}
+	return n
+}
+
+const hangHorizon = 30 * time.Second // only turns a hang into a verdict; the operations take microseconds
+
+// probe calls HasBody. For requests with a context it also places the cancellation event and checks that
+// the call leaves nothing running; with a blocking first read it runs the hand-shake:
+//
+//	arm the stream, call HasBody on another goroutine, wait for "Read entered" (or for the call to return),
+//	place the event (cancel), wait up to waitMs for an EARLY return (a stimulus: correct code cannot return
+//	while the Read is parked), release the Read, wait until it has delivered, collect the answer.
+func (q *sess) probe() (got bool, cl, what string) {
+	q.probes++
+	cfg := q.cfg
+	if cfg.ctx == "" {
+		return runtime.HasBody(q.req), "", ""
+	}
+	first := q.probes == 1
+	defer func() {
+		if first && cfg.ctx == ctxCancelAfter {
+			q.cancel()
+		}
+	}()
+	leak := func(when string) (string, string) {
+		// settle loop of a leak check: on correct code the count is 0 at the first look
+		deadline := time.Now().Add(2 * time.Second)
+		for {
+			n := requestGoGoroutines()
+			if n == 0 {
+				return "", ""
+			}
+			if time.Now().After(deadline) {
+				return "probe-goroutine-left-running", fmt.Sprintf("step %d %s: %d goroutine(s) still execute request.go code %s", q.x.step, q.x.cur, n, when)
+			}
+			time.Sleep(time.Millisecond)
+		}
+	}
+	var b *blocker
+	if q.s != nil {
+		b = q.s.block
+	}
+	if !first || b == nil {
+		got = runtime.HasBody(q.req)
+		cl, what = leak("after HasBody returned")
+		return got, cl, what
+	}
+	// blocking first read
+	type res struct {
+		ans bool
+		pan any
+	}
+	done := make(chan res, 1)
+	b.armed.Store(true)
+	go func() {
+		var r res
+		defer func() {
+			r.pan = recover()
+			done <- r
+		}()
+		r.ans = runtime.HasBody(q.req)
+	}()
+	finish := func(r res) {
+		if r.pan != nil {
+			panic(r.pan) // re-raised on the harness goroutine: judged like any other panic
+		}
+		got = r.ans
+	}
+	entered, returned := false, false
+	horizon := time.NewTimer(hangHorizon)
+	defer horizon.Stop()
+	select {
+	case <-b.entered:
+		entered = true
+	case r := <-done:
+		returned = true
+		finish(r)
+	case <-horizon.C:
+		b.armed.Store(false)
+		return false, "hasbody-hangs", fmt.Sprintf("step %d %s neither read the stream nor returned within %v", q.x.step, q.x.cur, hangHorizon)
+	}
+	if entered {
+		if cfg.ctx == ctxCancelBlocked {
+			q.cancel()
+		}
+		if cfg.waitMs > 0 && cfg.ctx != ctxCancellable {
+			w := time.NewTimer(time.Duration(cfg.waitMs) * time.Millisecond)
+			select {
+			case r := <-done:
+				// HasBody returned while its own Read of the stream is still parked
+				returned = true
+				finish(r)
+				q.s.inCall.Store(false)
+				if n := requestGoGoroutines(); n > 0 {
+					cl, what = "probe-outlives-call", fmt.Sprintf("step %d %s returned %v while %d goroutine(s) of request.go are still running (one is parked in the underlying Read it issued)", q.x.step, q.x.cur, got, n)
+				}
+			case <-w.C:
+			}
+			w.Stop()
+		}
+	}
+	b.armed.Store(false)
+	close(b.release)
+	if entered {
+		<-b.firstDone
+	}
+	if !returned {
+		select {
+		case r := <-done:
+			finish(r)
+		case <-horizon.C:
+			return false, "hasbody-hangs", fmt.Sprintf("step %d %s did not return within %v after the underlying Read was released", q.x.step, q.x.cur, hangHorizon)
+		}
+	}
+	if cl != "" {
+		return got, cl, what
+	}
+	cl, what = leak("after HasBody returned and the parked Read was released")
+	return got, cl, what
 }
 
 func (q *sess) kind() int {
@@ -725,6 +950,21 @@ func (q *sess) hash() uint64 {
 
 // apply executes one operation on this request and judges the observation.
 func (q *sess) apply(op uint8, label string) (string, string) {
+	if q.env != nil {
+		q.env.inCall.Store(true)
+		defer q.env.inCall.Store(false)
+	}
+	cl, what := q.applyInner(op, label)
+	if cl == "" && q.env != nil {
+		q.env.inCall.Store(false)
+		if n := q.env.outside.Load(); n > 0 {
+			return "underlying-read-outside-call", fmt.Sprintf("step %d %s: %d Read call(s) reached the underlying stream of %s (or delivered) while no operation on its request body was in progress", q.x.step, label, n, q.name)
+		}
+	}
+	return cl, what
+}
+
+func (q *sess) applyInner(op uint8, label string) (string, string) {
 	x, st, logf, m, req := q.x, q.x.st, q.x.logf, &q.m, q.req
 	B, T := q.cfg.data, q.cfg.term
 	x.step++
@@ -738,7 +978,8 @@ func (q *sess) apply(op uint8, label string) (string, string) {
 	switch {
 	case op == opHasBody:
 		before := q.kind()
-		got := runtime.HasBody(req)
+		got, pcl, pwhat := q.probe()
+		req = q.req
 		// sentence 2 of the property, evaluated on the model state
 		var want bool
 		var why int
@@ -782,6 +1023,9 @@ func (q *sess) apply(op uint8, label string) (string, string) {
 			st.outcomes[why]++
 		}
 		m.hasLast, m.last = true, got
+		if pcl != "" {
+			return pcl, pwhat
+		}
 		if after := q.kind(); after != before {
 			if after == kindReplaced && before == kindRaw {
 				q.wrapped = true
@@ -993,6 +1237,9 @@ type sweep struct {
 	extended   bool // alphabet of 8 operations, and only histories that use Read(4095) or Read(8192) (the others are covered by the base sweeps)
 	bound      int  // deviations of the streams from their default answers; -1 = unbounded
 	zeroBudget int
+	ctxs       []string // context / cancellation axis (nil: background context)
+	blocking   bool     // the first probe's first underlying Read parks; every history starts with that probe
+	waitMs     int
 	firsts     []int // content axis: values of body byte 0 for bodies of length >= 1 (-1 = the pattern's byte, 0x00); nil = pattern only
 
 	// several-request sweeps: every ordered tuple of nreq bodies from multi, operations multiOps on each request
@@ -1043,6 +1290,9 @@ func allSeqs(sw sweep) [][]uint8 {
 		for i, v := range s {
 			q[i] = uint8(v)
 			ext = ext || v >= nBaseOps
+		}
+		if sw.blocking {
+			q = append([]uint8{opHasBody}, q...)
 		}
 		if ext == sw.extended {
 			out = append(out, q)
